@@ -469,7 +469,11 @@ int SimulateMips::execute()
     case 0x00:
       if (((opcode >> 6) & 0x3ff) == 0 && (opcode & 0x3f) == 0x1a)
       {
-        // div
+        // div: the result of a division by zero is unpredictable on a
+        // MIPS CPU, but it does not trap (and neither does INT_MIN / -1).
+        if (reg[rt] == 0) { break; }
+        if (reg[rt] == -1) { hi = 0; lo = 0 - (uint32_t)reg[rs]; break; }
+
         hi = reg[rs] % reg[rt];
         lo = reg[rs] / reg[rt];
         break;
@@ -478,6 +482,9 @@ int SimulateMips::execute()
       if (((opcode >> 6) & 0x3ff) == 0 && (opcode & 0x3f) == 0x1b)
       {
         // divu
+        if (reg[rt] == 0) { break; }
+        if (reg[rt] == -1) { hi = 0; lo = 0 - (uint32_t)reg[rs]; break; }
+
         hi = reg[rs] % reg[rt];
         lo = reg[rs] / reg[rt];
         break;
